@@ -289,6 +289,12 @@ func (s *SpokFile) run(stream iostream.IOStream, runner shell.Runner, force bool
 			// or its dependencies have changed, in which case the action to be taken is the same
 			result, err = taskToRun.Run(runner, stream, s.Env())
 			if err != nil {
+				// One of the commands could not be run at all, the ones before it still count:
+				// if any of them failed on the very files the digest describes, it goes (as below)
+				if !result.Ok() && cachedDigest != "" && currentDigest == cachedDigest {
+					cachedState.Set(taskToRun.Name, "")
+					cacheChanged = true
+				}
 				return nil, fmt.Errorf("Task %q encountered an error: %w", taskToRun.Name, err)
 			}
 
